@@ -322,18 +322,40 @@ impl AstLowering {
         })
     }
 
+    /// Record `class_name` on the `extends` chain being walked; a class that is already on it inherits from itself.
+    fn enter_class_chain(class_name: &str, visiting: &mut Vec<String>) -> Result<(), LoweringError> {
+        if visiting.iter().any(|seen| seen == class_name) {
+            return Err(LoweringError {
+                message: format!("class '{}' inherits from itself (cyclic `extends`)", class_name),
+                span: IrSpan::default(),
+            });
+        }
+        visiting.push(class_name.to_string());
+        Ok(())
+    }
+
     /// Recursively collect all inherited fields from parent classes.
     pub(super) fn collect_inherited_fields(
         &mut self,
         class_name: &str,
         fields: &mut Vec<StructField>,
     ) -> Result<(), LoweringError> {
+        self.collect_inherited_fields_from(class_name, fields, &mut Vec::new())
+    }
+
+    fn collect_inherited_fields_from(
+        &mut self,
+        class_name: &str,
+        fields: &mut Vec<StructField>,
+        visiting: &mut Vec<String>,
+    ) -> Result<(), LoweringError> {
+        Self::enter_class_chain(class_name, visiting)?;
         // Clone to avoid borrowing `self.class_decls` across recursive calls and expression lowering.
         let parent_class = self.class_decls.get(class_name).cloned();
         if let Some(parent_class) = parent_class {
             // First, collect grandparent fields if any
             if let Some(grandparent_name) = &parent_class.extends {
-                self.collect_inherited_fields(grandparent_name, fields)?;
+                self.collect_inherited_fields_from(grandparent_name, fields, visiting)?;
             }
 
             // Then add parent's own fields
@@ -361,10 +383,20 @@ impl AstLowering {
         class_name: &str,
         methods: &mut Vec<Spanned<ast::MethodDecl>>,
     ) -> Result<(), LoweringError> {
+        self.collect_inherited_methods_from(class_name, methods, &mut Vec::new())
+    }
+
+    fn collect_inherited_methods_from(
+        &self,
+        class_name: &str,
+        methods: &mut Vec<Spanned<ast::MethodDecl>>,
+        visiting: &mut Vec<String>,
+    ) -> Result<(), LoweringError> {
+        Self::enter_class_chain(class_name, visiting)?;
         if let Some(class) = self.class_decls.get(class_name) {
             // First, collect grandparent methods if any
             if let Some(parent_name) = &class.extends {
-                self.collect_inherited_methods(parent_name, methods)?;
+                self.collect_inherited_methods_from(parent_name, methods, visiting)?;
             }
 
             // Then add/override with this class's own methods
